@@ -113,6 +113,27 @@ def run(chk: Check) -> None:
                                                          for c in ast.walk(i) if isinstance(c, ast.Call) and last_name(c) == 'startswith']
     ok = len(slices) == 1 and bool(sw) and all(norm(slices[0].slice.lower) == f'len({norm(c.args[0])})' and norm(slices[0].value) == norm(c.func.value) for c in sw)
     chk.ob('SEG-exact-matching', sn, ok, 'a matching rule is passed down with exactly the matched prefix removed', kind='strip-prefix')
+    # "with the source namespace's properties": absorb copies the mutable properties one by one through their setters; a setter that also writes ANOTHER
+    # copied property makes the outcome depend on the order of the copy (alphabetical, from dir()): valid_type's setter switches dynamic on
+    pn = prog.cls('ports.PortNamespace')
+    setters = {}
+    for k_ in pn.mro_classes():
+        for m_ in k_.all_methods() if hasattr(k_, 'all_methods') else []:
+            pass
+    props = {}
+    for k_ in reversed(pn.mro_classes()):
+        for n_ in ast.walk(k_.node):
+            if isinstance(n_, ast.FunctionDef) and any(isinstance(d, ast.Attribute) and d.attr == 'setter' for d in n_.decorator_list):
+                props[n_.name] = (k_, n_)
+    cross = []
+    for name_, (k_, fn_) in props.items():
+        for x in ast.walk(fn_):
+            if isinstance(x, ast.Attribute) and isinstance(x.ctx, ast.Store) and isinstance(x.value, ast.Name) and x.value.id == 'self' and x.attr in props and x.attr != name_:
+                cross.append((name_, x.attr, k_, x))
+    for name_, other, k_, x in cross:
+        chk.ob('PROV-namespace-options', f'{k_.qualname}.{name_}', False, f'the setter of {name_} also assigns the property {other}: copying the properties in alphabetical order, {other} is '
+               f'{"overwritten afterwards" if other > name_ else "changed after it was copied"} -- the destination does not end up with the source\'s {other}', kind=f'setter-writes-other-property:{name_}->{other}', expr=f'{name_}.setter')
+    chk.ob('PROV-namespace-options', pn.qualname, True, f'{len(props)} property setters examined for writes to other copied properties', kind='setter-scan', expr='setters')
     # the options dictionary belongs to the caller (the same one is commonly passed to expose_inputs and expose_outputs): absorb consumes a copy
     opt = 'namespace_options'
     muts = [c for c in calls_in_func(ab) if isinstance(c.func, ast.Attribute) and norm(c.func.value) == opt and c.func.attr in ('pop', 'popitem', 'clear', 'update', 'setdefault', '__delitem__')]
